@@ -1248,7 +1248,7 @@ func (sc *serverConn) handleHeaderFrame(strm *Stream, fr *FrameHeader) error {
 	// block is still decoded, for its effect on the HPACK dynamic table: the
 	// next request on the connection may refer to an entry this one adds
 	// (RFC 7540 4.3).
-	var reject error
+	reject := strm.rejected
 
 	fieldsProcessed := 0
 
@@ -1411,7 +1411,11 @@ func (sc *serverConn) handleHeaderFrame(strm *Stream, fr *FrameHeader) error {
 		fieldsProcessed++
 	}
 
-	if err == nil {
+	// The verdict waits for the end of the block: resetting the stream now
+	// would leave the CONTINUATION frames that complete the block with no
+	// stream to be decoded on.
+	strm.rejected = reject
+	if err == nil && fr.Flags().Has(FlagEndHeaders) {
 		err = reject
 	}
 
